@@ -9,8 +9,9 @@ rusl/src/string/unix_str.rs `match_up_to` / `match_up_to_str` (raw-pointer reads
 operand's bytes is a `fault`); they are the same loops as Model/UnixStr.lean's (kept local so that this
 model stays self-contained).
 
-The model follows the code AFTER the `fix:` commit (the matched prefix must be the whole key); the pre-fix
-bodies are in `namespace Legacy` together with the witness of the defect.
+The model follows the code AFTER the `fix:` commits (10a4869: the matched prefix must be the whole key; d3e06ee:
+`len()` / `size_hint()` of the argument iterators report what remains); the pre-fix bodies are in
+`namespace Legacy`, the witnesses of the defects in Props/C07.lean.
 -/
 import TinyVerif.Model.Start
 namespace TinyVerif.Env
@@ -120,18 +121,25 @@ def lookup (key : Bytes) : List Bytes → Option Bytes
 
 /-! ## the argument iterators as stateful objects (`ArgsOs`, `Args` — tiny-std/src/env.rs)
 
-`ArgsOs { ind, num_args }` (Model/Start.lean `ArgsOs`) implements `Iterator::next` and overrides
-`ExactSizeIterator::len` (`self.num_args`); `Args(ArgsOs)` implements `next` (`self.0.next().map(as_str)`)
-and `len` (`self.0.num_args`).  NOTHING else is overridden, so every other method a program can call is
-`core`'s default body over that `next`; those bodies are mirrored here over an arbitrary `next` function
-`nx` (`ArgsOs.next m e fuel` for `ArgsOs`, `Args.next m e fuel` for `Args`):
+`ArgsOs { ind, num_args }` (Model/Start.lean `ArgsOs`) implements `Iterator::next`, overrides
+`Iterator::size_hint` (`let remaining = self.len(); (remaining, Some(remaining))`) and
+`ExactSizeIterator::len` (`self.num_args - self.ind`); `Args(ArgsOs)` implements `next`
+(`self.0.next().map(as_str)`) and delegates `size_hint` (`self.0.size_hint()`) and `len` (`self.0.len()`).
+NOTHING else is overridden, so every other method a program can call is `core`'s default body over that `next`;
+those bodies are mirrored here over an arbitrary `next` function `nx` (`ArgsOs.next m e fuel` for `ArgsOs`,
+`Args.next m e fuel` for `Args`):
 
   nth(n)            `self.advance_by(n).ok()?; self.next()`   (advance_by: `n ×` next, stop at the first None)
   skip(k).next()    `if self.n > 0 { self.iter.nth(take(&mut self.n)) } else { self.iter.next() }`
   step_by(k)        `assert!(k != 0)`; each call: `self.iter.nth(if first_take { 0 } else { k - 1 })`
   fold / for_each   `while let Some(x) = self.next() { … }`;  count = fold(+1);  last = fold(Some)
-  size_hint()       `(0, None)`  (the default; NOT overridden although both types are `ExactSizeIterator`)
-  len()             `num_args`   (AS WRITTEN: the total, not what remains)
+  len()             `num_args - ind`  (a `usize` subtraction: overflow panic in a debug build should `ind` ever
+                    exceed `num_args`; `next` only increments `ind` below `num_args`, the theorems show the
+                    branch is never taken)
+  size_hint()       `(len(), Some(len()))`
+
+Both `len` and `size_hint` are the code AFTER the `fix:` commit d3e06ee; before it `len()` was `num_args` (the
+total, whatever had been yielded) and `size_hint()` the default `(0, None)`: `Legacy.itStep`.
 -/
 
 abbrev Nx (α : Type) := ArgsOs → R (Option α × ArgsOs)
@@ -201,8 +209,8 @@ def itStep {α : Type} (nx : Nx α) (fuel : Nat) (op : ItOp) (it : ArgsOs) : R (
   | .stepBy k =>
     if k = 0 then .panic          -- `assert!(step != 0)`
     else (stepLoopWith nx (k - 1) fuel true it).bind fun r => .ok (.items r.1, r.2)
-  | .len => .ok (.num it.len, it)
-  | .sizeHint => .ok (.hint 0 none, it)
+  | .len => if it.numArgs < it.ind then .panic else .ok (.num it.len, it)
+  | .sizeHint => if it.numArgs < it.ind then .panic else .ok (.hint it.len (some it.len), it)
   | .count => (drainWith nx fuel it).bind fun r => .ok (.num r.1.length, r.2)
   | .last => (drainWith nx fuel it).bind fun r => .ok (.item (lastOf r.1), r.2)
   | .fold => (drainWith nx fuel it).bind fun r => .ok (.items r.1, r.2)
@@ -213,7 +221,7 @@ def runOps {α : Type} (nx : Nx α) (fuel : Nat) : List ItOp → ArgsOs → R (L
   | op :: rest, it => (itStep nx fuel op it).bind fun r =>
       (runOps nx fuel rest r.2).bind fun outs => .ok (r.1 :: outs)
 
-/-! ## the code before the fix -/
+/-! ## the code before the fixes -/
 namespace Legacy
 
 def entryUnix (key e : Bytes) : R (Option Bytes) :=
@@ -243,6 +251,19 @@ def var (key : Bytes) : List Bytes → R VarRes
       match r with
       | some v => .ok (if utf8Valid v then .found v else .notUnicode)
       | none => var key rest
+
+/-- the iterator calls before the `fix:` commit d3e06ee: `ExactSizeIterator::len` was `self.num_args` (Args:
+    `self.0.num_args`) and `size_hint` was not overridden (`core`'s default `(0, None)`); every other call as now -/
+def itStep {α : Type} (nx : Nx α) (fuel : Nat) (op : ItOp) (it : ArgsOs) : R (ItOut α × ArgsOs) :=
+  match op with
+  | .len => .ok (.num it.numArgs, it)
+  | .sizeHint => .ok (.hint 0 none, it)
+  | op => TinyVerif.Env.itStep nx fuel op it
+
+def runOps {α : Type} (nx : Nx α) (fuel : Nat) : List ItOp → ArgsOs → R (List (ItOut α))
+  | [], _ => .ok []
+  | op :: rest, it => (itStep nx fuel op it).bind fun r =>
+      (runOps nx fuel rest r.2).bind fun outs => .ok (r.1 :: outs)
 
 end Legacy
 
